@@ -69,7 +69,7 @@ fn c02_binary_mul() {
 }
 }
 
-// @harness id=c02_binary_div props=C02,C06 tier=thorough cap=3600
+// @harness id=c02_binary_div props=C02,C06 tier=attempt cap=3600
 // @desc do_binary_op for / on any two finite numbers: division by +0 or -0 is an error, otherwise the IEEE-754 quotient when finite, otherwise an error
 // @bound all pairs of finite doubles
 // @funcs Evaluator::do_binary_op, Evaluator::check_number_value
